@@ -7,12 +7,21 @@ package symboltable
 import (
 	"fmt"
 	"math/rand"
-	"time"
 
 	. "github.com/moorara/algo/generic"
 )
 
-var r = rand.New(rand.NewSource(time.Now().UnixNano()))
+// globalSource is a rand.Source64 that draws from the top-level functions of math/rand.
+// Unlike a source created by rand.NewSource, it is safe for concurrent use by multiple goroutines.
+type globalSource struct{}
+
+func (globalSource) Int63() int64   { return rand.Int63() }
+func (globalSource) Uint64() uint64 { return rand.Uint64() }
+func (globalSource) Seed(int64)     {}
+
+// r randomizes the order in which hash tables are traversed.
+// It keeps no state of its own, so that hash tables used from different goroutines share no unsynchronized state.
+var r = rand.New(globalSource{})
 
 // SymbolTable represents an unordered symbol table abstract data type.
 type SymbolTable[K, V any] interface {
